@@ -567,13 +567,26 @@ paf24_read_s (SF_PRIVATE *psf, short *ptr, sf_count_t len)
 static sf_count_t
 paf24_read_i (SF_PRIVATE *psf, int *ptr, sf_count_t len)
 {	PAF24_PRIVATE *ppaf24 ;
-	int				total ;
+	int			readcount, count ;
+	sf_count_t	total = 0 ;
 
 	if (psf->codec_data == NULL)
 		return 0 ;
 	ppaf24 = (PAF24_PRIVATE*) psf->codec_data ;
 
-	total = paf24_read (psf, ppaf24, ptr, len) ;
+	/* The block layer counts in int : hand a long request over in pieces. */
+	while (len > 0)
+	{	readcount = (len > 0x10000000) ? 0x10000000 : (int) len ;
+		/* Whole frames only : paf24_read () advances by count / channels. */
+		readcount -= readcount % ppaf24->channels ;
+
+		count = paf24_read (psf, ppaf24, ptr + total, readcount) ;
+
+		total += count ;
+		len -= count ;
+		if (count != readcount)
+			break ;
+		} ;
 
 	return total ;
 } /* paf24_read_i */
